@@ -7,6 +7,7 @@ A recipe is a list:  ['int', n] ['float', 'repr'] ['bool', b] ['none'] ['ellipsi
 Replay files carry recipes, so every case can be rebuilt exactly.
 """
 import ast
+import collections
 import json
 import itertools
 import math
@@ -229,6 +230,8 @@ def canon(v):
     bv = base_value(v)
     if bv is not NotImplemented:
         return ('sub', t.__module__ + '.' + t.__qualname__, canon(bv))
+    if t is collections.deque:
+        return ('deque', v.maxlen, tuple(canon(x) for x in v))
     return ('other', t.__module__ + '.' + t.__qualname__, repr(v))
 
 
